@@ -5,7 +5,7 @@
    Every statement quantifies over ALL byte strings (lists of Z in 0..255), all bit strings,
    all valid derived tables. *)
 From Coq Require Import List ZArith Bool.
-From LJT Require Import gen.GenLimits model.Huff model.DMarkers model.DFastPath proofs.DFastPathProofs
+From LJT Require Import gen.GenLimits model.Huff model.DMarkers model.DFastPath model.DProg model.DStream proofs.DFastPathProofs proofs.DProgProofs proofs.DStreamProofs
   proofs.DMarkersProofs proofs.DMarkersScanProofs proofs.DMarkersBlockProofs proofs.DMarkersFastProofs proofs.DMarkersTop.
 Import ListNotations.
 Local Open Scope Z_scope.
@@ -140,6 +140,39 @@ Print Assumptions C01_fast_path_safe.
 Example C01_ex_fast_path : ex_fast_check = true.
 Proof. exact ex_fast_check_true. Qed.
 
+(* (4d) progressive Huffman decoder (jdphuff.c), for every valid AC table, every band 1 <= Ss <= Se <= 63
+   (exactly what start_pass accepts, second theorem), every block content, EOBRUN and bit string:
+   decode_mcu_AC_first stores at natural_order[k], k <= Se + 15 < 80; decode_mcu_AC_refine evaluates
+   natural_order[k] only for k <= Se + 1 <= 64, writes positions < 64 and newnz_pos[i] with i < 64; the
+   coef_bits[][] accesses of start_pass stay inside the 2 * num_components x DCTSIZE2 table; no fuel needed *)
+Theorem C01_prog_index_safe : forall t Ss Se, dtbl_ok t -> 1 <= Ss <= Se -> Se <= 63 ->
+  (forall Al bs, match ac_first_loop 64 t Se Al Ss bs [] [] with
+              | PDone e tr _ _ => tr_ok tr /\ 0 <= e | PSusp tr => tr_ok tr | PFuel _ => False end) /\
+  (forall Al eobrun blk bs, match ac_refine_block t Ss Se Al eobrun blk bs with
+                            | RDone _ _ _ tr => tr_ok tr | RSusp tr => tr_ok tr | RFuel _ => False end) /\
+  (forall nc cindex, 0 <= cindex < nc -> tr_ok (coef_bits_trace nc cindex Ss Se)).
+Proof. exact prog_index_safe_. Qed.
+Print Assumptions C01_prog_index_safe.
+
+Theorem C01_prog_params : forall sc, bad_progression sc = false -> 0 <= s_Ss sc ->
+  (s_Ss sc <> 0 -> 1 <= s_Ss sc <= s_Se sc /\ s_Se sc <= 63 /\ s_n sc = 1 /\ s_Al sc <= 13) /\
+  (s_Ss sc = 0 -> s_Se sc = 0 /\ s_Al sc <= 13).
+Proof. exact prog_params_. Qed.
+Print Assumptions C01_prog_params.
+
+(* (4e) lossless Huffman decoder (jdlhuff.c): for every scan whose MCU holds at most D_MAX_BLOCKS_IN_MCU
+   samples (C01_accepted_bounds) every index into output_ptr_info / output_ptr_index / cur_tbls / output_ptr
+   formed by start_pass and decode_mcus is inside the declared arrays *)
+Theorem C01_lossless_index_safe : forall comps, Forall (fun c => 1 <= fst c /\ 1 <= snd c) comps ->
+  comps_units comps <= L_D_MAX_BLOCKS_IN_MCU ->
+  let '(idx, n, tr) := lh_setup comps 0 0 [] in
+  tr_ok tr /\ n <= bound_lh_arrays /\ tr_ok (lh_mcu_trace idx) /\ Z.of_nat (length idx) = comps_units comps.
+Proof. exact lossless_index_safe_. Qed.
+Print Assumptions C01_lossless_index_safe.
+
+Example C01_ex_refine_reaches_k64 : ex_refine_check = true.
+Proof. exact ex_refine_check_true. Qed.
+
 (* every per-datastream state member of the marker reader and of the input controller (inventories
    read from jpegint.h / jdmarker.c / jdinput.c) is assigned by reset_marker_reader /
    reset_input_controller, except next_restart_num (set by get_sos) and bytes_read (written with
@@ -159,6 +192,23 @@ Theorem C01_fake_eoi_terminates : forall ec data, ec_mono ec -> Forall byte data
   end.
 Proof. exact fake_eoi_terminates_. Qed.
 Print Assumptions C01_fake_eoi_terminates.
+
+(* (5b) SCAN-level progress and work bound of the whole datastream on a memory source, for EVERY byte string,
+   every forward-only entropy consumer and every scan limit: the number of scans is <= the limit and
+   <= length/2 + 3; every scan passes initial_setup/per_scan_setup and costs at most
+   DCTSIZE2 x D_MAX_BLOCKS_IN_MCU x (declared width x height) coefficient steps (one data unit never needs
+   more than 64: C01_decode_block_index_safe), so the total work is <= scans x 64 x 10 x declared area *)
+Theorem C01_scan_time_bound : forall ec limit data, ec_mono ec -> 0 <= limit -> Forall byte data ->
+  match decode_stream2 ec limit (Nat.div2 (length data) + 3) hdr0 0 0 0 (io0 data true) with
+  | SDone h n w a s' =>
+      0 <= n <= limit /\ n <= Z.of_nat (length data) / 2 + 3 /\ 0 <= a <= L_JPEG_MAX_DIMENSION * L_JPEG_MAX_DIMENSION /\
+      w <= n * (L_DCTSIZE2 * L_D_MAX_BLOCKS_IN_MCU * a) /\ trace_ok s'
+  | SSusp => False
+  | SFail e n w s' => e <> E_OUT_OF_FUEL /\ trace_ok s'
+  | SLimit n w a s' => n = limit /\ w <= n * (L_DCTSIZE2 * L_D_MAX_BLOCKS_IN_MCU * a) /\ trace_ok s'
+  end.
+Proof. exact scan_time_bound_. Qed.
+Print Assumptions C01_scan_time_bound.
 
 (* (6) The full property is about the C text: an implementation run on a byte string under a
    configuration.  It stays a definition; what is proved is its model-level part. *)
@@ -195,8 +245,22 @@ Theorem C01_partial :
      | Done (h, nscans) s' => 0 <= nscans <= Z.of_nat (length data) / 2 + 3 /\ trace_ok s'
      | Susp => False
      | Fail e s' => e <> E_OUT_OF_FUEL /\ trace_ok s'
-     end).
-Proof. exact (conj read_markers_total_ (conj accepted_bounds_ (conj decode_block_spec fake_eoi_terminates_))). Qed.
+     end) /\
+  (* the unchecked Huffman fast path: all reads inside the BUFSIZE * blocks bytes that enable it *)
+  (forall (tbls : list (dtbl * dtbl)) (src : list Z) (bits0 : list bool),
+     Forall tbl_pair_ok tbls -> (1 <= length tbls)%nat -> (length bits0 <= 64)%nat ->
+     L_BUFSIZE * Z.of_nat (length tbls) <= Z.of_nat (length src) ->
+     exists out s', decode_mcu_fast tbls (fstate0 src bits0) [] = Some (out, s') /\
+                    Forall (fun i => 0 <= i < Z.of_nat (length src)) (f_reads s') /\
+                    0 <= f_pos s' <= Z.of_nat (length src) /\ (length (f_bits s') <= 64)%nat) /\
+  (* progressive AC decoding: index discipline *)
+  (forall t Ss Se, dtbl_ok t -> 1 <= Ss <= Se -> Se <= 63 ->
+     (forall Al bs, match ac_first_loop 64 t Se Al Ss bs [] [] with
+                    | PDone e tr _ _ => tr_ok tr /\ 0 <= e | PSusp tr => tr_ok tr | PFuel _ => False end) /\
+     (forall Al eobrun blk bs, match ac_refine_block t Ss Se Al eobrun blk bs with
+                               | RDone _ _ _ tr => tr_ok tr | RSusp tr => tr_ok tr | RFuel _ => False end) /\
+     (forall nc cindex, 0 <= cindex < nc -> tr_ok (coef_bits_trace nc cindex Ss Se))).
+Proof. exact (conj read_markers_total_ (conj accepted_bounds_ (conj decode_block_spec (conj fake_eoi_terminates_ (conj fast_path_safe_ prog_index_safe_))))). Qed.
 Print Assumptions C01_partial.
 
 (* ------------------------------------------------------------ non-vacuity *)
